@@ -6,7 +6,8 @@
   * no program with non-negative `.burn` amounts lowers the counter (`run_mono`);
   * hence every program without a `.gas` node and with non-negative `.burn` amounts is
     `RoomShiftInv` (`roomShiftInv_of_syntax`, all constructors of `Prog`);
-  * the shell (`txRun`, `deliverTx`, `deliverAll`, block hooks) threaded through it.
+  * the shell (`txRun`, `deliverTx`, `deliverAll`) threaded through it; the block hooks run
+    unmetered and need nothing of this.
 -/
 import OLP.Shell.LemmasA
 
@@ -377,11 +378,6 @@ theorem RoomBlind.of_syntax (cfg : Cfg K V) (hs : Handlers K V C E T H D)
   monoD tx := run_mono cfg _ (hdl tx).2
   monoF tx g := by rw [hfee]; exact fee_relative_mono cfg (q tx) (fun x => (hq tx x).2) g
 
-theorem HooksRoomBlind.of_syntax (cfg : Cfg K V) (hs : Handlers K V C E T H D)
-    (hh : ∀ h, ∀ hk ∈ hs.endb h, hk.2.NoGasRead ∧ hk.2.BurnNonneg) : HooksRoomBlind cfg hs :=
-  fun h hk hm => ⟨roomShiftInv_of_syntax cfg _ (hh h hk hm).1 (hh h hk hm).2,
-    run_mono cfg _ (hh h hk hm).2⟩
-
 /-! ### the body of `txDeliverer` -/
 
 theorem gasOut_eq_false_iff (g : Gas) : gasOut g = false ↔ hasRoom g := by
@@ -623,76 +619,10 @@ theorem deliverAll_room_shift (hb : RoomBlind cfg hs) (hnv : DeliverNoVset hs) (
       simp only [List.filter_cons, hok]
       exact ⟨i1, i2⟩
 
-/-! ### block hooks -/
+/-! ### block hooks
 
-theorem runHook_mono (n : Node K V C T H D) (hk : Bool × Prog K V C E Unit) (haim : hk.1 = true)
-    (hm : GasMono cfg hk.2) :
-    n.dlv.gas.consumed ≤ (runHook cfg e n hk).dlv.gas.consumed ∧
-    (runHook cfg e n hk).dlv.gas.limit = n.dlv.gas.limit := by
-  unfold runHook
-  simp only [haim, Bool.true_or, if_true]
-  exact ⟨hm (n.dlv.toSt n.tree) n.vol e, (run_pres cfg hk.2 (n.dlv.toSt n.tree) n.vol e).limit⟩
-
-theorem foldl_runHook_mono (hooks : List (Bool × Prog K V C E Unit))
-    (hh : ∀ hk ∈ hooks, hk.1 = true ∧ GasMono cfg hk.2) (n : Node K V C T H D) :
-    n.dlv.gas.consumed ≤ (hooks.foldl (runHook cfg e) n).dlv.gas.consumed ∧
-    (hooks.foldl (runHook cfg e) n).dlv.gas.limit = n.dlv.gas.limit := by
-  induction hooks generalizing n with
-  | nil => exact ⟨Int.le_refl _, rfl⟩
-  | cons hk t ih =>
-    rw [List.foldl_cons]
-    have hk' := hh hk (List.mem_cons_self ..)
-    obtain ⟨a1, a2⟩ := runHook_mono cfg e n hk hk'.1 hk'.2
-    obtain ⟨b1, b2⟩ := ih (fun x hx => hh x (List.mem_cons_of_mem _ hx)) (runHook cfg e n hk)
-    exact ⟨Int.le_trans a1 b1, b2.trans a2⟩
-
-theorem runHook_room_shift (d : Int) (a b : Node K V C T H D) (hk : Bool × Prog K V C E Unit)
-    (haim : hk.1 = true) (hg : RoomShiftInv cfg hk.2) (hd : 0 ≤ d) (h : ShiftNode d a b)
-    (hr : hasRoom (runHook cfg e b hk).dlv.gas) :
-    ShiftNode d (runHook cfg e a hk) (runHook cfg e b hk) := by
-  obtain ⟨h1, h2, h3, h4, h5, h6, h7⟩ := h
-  unfold runHook at hr ⊢
-  simp only [haim, Bool.true_or, if_true] at hr ⊢
-  have hs0 : ShiftSt d (a.dlv.toSt a.tree) (b.dlv.toSt b.tree) := by
-    rw [h1]; exact h2.toSt a.tree
-  rw [h4] at hr
-  obtain ⟨_, x2, x3⟩ := hg d _ _ a.vol e hd hs0 hr
-  rw [h4]
-  exact ⟨h1, x2.ovOf, h3, x3, h5, h6, h7⟩
-
-theorem foldl_runHook_room_shift (d : Int) (hd : 0 ≤ d) (hooks : List (Bool × Prog K V C E Unit))
-    (hh : ∀ hk ∈ hooks, hk.1 = true ∧ RoomShiftInv cfg hk.2 ∧ GasMono cfg hk.2)
-    (a b : Node K V C T H D) (h : ShiftNode d a b)
-    (hr : hasRoom (hooks.foldl (runHook cfg e) b).dlv.gas) :
-    ShiftNode d (hooks.foldl (runHook cfg e) a) (hooks.foldl (runHook cfg e) b) := by
-  induction hooks generalizing a b with
-  | nil => exact h
-  | cons hk t ih =>
-    rw [List.foldl_cons] at hr
-    rw [List.foldl_cons, List.foldl_cons]
-    have hk' := hh hk (List.mem_cons_self ..)
-    have ht : ∀ x ∈ t, x.1 = true ∧ RoomShiftInv cfg x.2 ∧ GasMono cfg x.2 :=
-      fun x hx => hh x (List.mem_cons_of_mem _ hx)
-    have hr1 : hasRoom (runHook cfg e b hk).dlv.gas := by
-      obtain ⟨m1, m2⟩ := foldl_runHook_mono cfg e t (fun x hx => ⟨(ht x hx).1, (ht x hx).2.2⟩)
-        (runHook cfg e b hk)
-      unfold hasRoom at *
-      omega
-    exact ih ht _ _ (runHook_room_shift cfg e d a b hk hk'.1 hk'.2.1 hd h hr1) hr
-
-theorem endBlock_room_shift (hhb : HooksRoomBlind cfg hs) (ha : AllAimed hs) (d : Int) (hd : 0 ≤ d)
-    (a b : Node K V C T H D) (h : ShiftNode d a b) (hr : hasRoom (endBlock cfg hs e b).dlv.gas) :
-    ShiftNode d (endBlock cfg hs e a) (endBlock cfg hs e b) := by
-  unfold endBlock at hr ⊢
-  rw [h.2.2.2.2.2.1] at hr ⊢
-  exact foldl_runHook_room_shift cfg e d hd _
-    (fun hk hm => ⟨(ha _).2 hk hm, (hhb _ hk hm).1, (hhb _ hk hm).2⟩) a b h hr
-
-/-- EndBlock never lowers the deliver state's counter: a block whose meter has room after
-    EndBlock had room after its last transaction -/
-theorem endBlock_mono (hhb : HooksRoomBlind cfg hs) (ha : AllAimed hs) (n : Node K V C T H D) :
-    n.dlv.gas.consumed ≤ (endBlock cfg hs e n).dlv.gas.consumed ∧
-    (endBlock cfg hs e n).dlv.gas.limit = n.dlv.gas.limit :=
-  foldl_runHook_mono cfg e _ (fun hk hm => ⟨(ha _).2 hk hm, (hhb _ hk hm).2⟩) n
+  The hooks run on the unmetered view of the deliver state (`runHook`): they neither see nor move
+  the block's meter, so nothing about them is needed here. `endBlock_shift`, `endBlock_gas` and
+  `beginBlock_gas` (Shell/LemmasA) say so. -/
 
 end OLP.Shell
